@@ -51,7 +51,7 @@ def pathfinder(roots, name):
 def run_case(c, d):
     roots = []
     for i, tree in enumerate(c['roots']):
-        r = os.path.join(d, 'root%d' % i)
+        r = os.path.join(d, 'root%d' % i if i != 1 else 'root1[v2]')       # a directory name with glob metacharacters is a directory name
         os.makedirs(r)
         materialise(tree, r)
         roots.append(r)
